@@ -20,11 +20,13 @@ echo "== stable tests WITH patch" >> $log; go test -vet=off -count=1 -timeout 30
 git checkout -q -- .
 echo "confirm: build=$build demo_without_patch=$without (want 0) demo_with_patch=$with (want !=0) stable_tests_with_patch=$stable (want 0)"
 if [ $build -ne 0 ] || [ $without -ne 0 ] || [ $with -eq 0 ] || [ $stable -ne 0 ]; then echo "SEED NOT CONFIRMED"; exit 3; fi
-# now against our checks
-if [ -n "$(git -C /repo status --porcelain --untracked-files=no)" ]; then echo "REFUSING: /repo has uncommitted changes (commit contract files first)"; exit 2; fi
-cd /repo && git apply $dst/patch.diff || { echo "patch does not apply to /repo"; exit 2; }
-cd /verif && GOVC_NO_EVIDENCE=1 ./check $id quick > $dst/check.out 2>&1; crc=$?
-git -C /repo checkout -q -- .
+# now against our checks: the patch is applied to a scratch worktree of /repo's HEAD plus the uncommitted contract
+# files of the working tree (GOVC_REPO), never to /repo itself
+sw=/tmp/se_$name; rm -rf $sw; git -C /repo worktree add -q --detach $sw HEAD || { echo "worktree failed"; exit 2; }
+(cd /repo && git ls-files -m -o --exclude-standard | grep zz_verif_contracts.go | while read f; do mkdir -p $sw/$(dirname $f); cp /repo/$f $sw/$f; done)
+git -C $sw apply $dst/patch.diff || { echo "patch does not apply to /repo HEAD"; git -C /repo worktree remove --force $sw; exit 2; }
+cd /verif && GOVC_REPO=$sw govc/bin/govc check -prop $id -tier quick -no-evidence > $dst/check.out 2>&1; crc=$?
+git -C /repo worktree remove --force $sw
 echo "check exit=$crc"; grep -E "VIOLATION|^$id:" $dst/check.out | head -8
 python3 - "$dst" "$id" "$crc" <<'PY'
 import json,sys
